@@ -324,6 +324,94 @@ def forwarder(prog, f, analysed_paths):
     return True, "forwards to one analysed entry point"
 
 
+CONTENT_PRESERVING = re.compile(r"^(alloc::borrow::Cow::<.*>::into_owned|<.* as core::clone::Clone>::clone|core::clone::Clone::clone|alloc::borrow::ToOwned::to_owned"
+                                r"|<.* as alloc::borrow::ToOwned>::to_owned|alloc::slice::<impl \[T\]>::to_vec|core::ops::deref::Deref::deref|<.* as core::ops::deref::Deref>::deref"
+                                r"|core::convert::AsRef::as_ref|<.* as core::convert::AsRef<.*>>::as_ref|core::convert::Into::into|<T as core::convert::Into<U>>::into"
+                                r"|core::convert::From::from|<.* as core::convert::From<.*>>::from)$")
+
+
+def rebuilds_from_own_fields(prog, f, adt):
+    """`f` builds a value of `adt` whose every field is the same field of a value of `adt` it was given, passed only through
+    content-preserving std conversions (`into_owned`, `clone`, `to_owned`, `to_vec`, `Cow::Owned(..)`, `into`): an `into_owned` /
+    `to_owned` style conversion.  Nothing a field could not already hold is put into it.  Returns (ok, reason)."""
+    if f.get("promoted") or prog.closures_of(f["path"]):
+        return False, "has promoted constants or closures"
+    b = f["body"]
+    nargs = b["arg_count"]
+    defs = {}
+    aggs = []
+    for blk in b["blocks"]:
+        if blk["cleanup"]:
+            continue
+        for st in blk["stmts"]:
+            if st["st"] != "assign":
+                return False, "statement %s" % st["st"]
+            pl, rv = st["place"], st["rvalue"]
+            if any(e["k"] in ("index", "cindex", "subslice") for e in pl["proj"]):
+                return False, "indexes or slices"
+            if rv["rv"] in ("binop", "unop", "repeat", "len", "discr"):
+                return False, "computes (%s)" % rv["rv"]
+            if rv["rv"] == "aggregate" and rv.get("adt") == adt:
+                aggs.append(rv)
+            if not pl["proj"]:
+                defs.setdefault(pl["local"], []).append(("rv", rv))
+        t = blk["term"]
+        if t["t"] == "call":
+            fj = t["func"].get("fn")
+            if not fj:
+                return False, "indirect call"
+            r = fj.get("resolved") or fj
+            if r["path"] in prog.fns or fj["path"] in prog.fns:
+                return False, "calls %s" % r["name"]
+            if not (CONTENT_PRESERVING.match(fj["name"]) or CONTENT_PRESERVING.match(r["name"])):
+                return False, "calls %s" % r["name"]
+            if not t["dest"]["proj"]:
+                defs.setdefault(t["dest"]["local"], []).append(("call", t))
+        elif t["t"] in ("switch", "assert"):
+            return False, "branches"
+        elif t["t"] not in ("goto", "drop", "return", "unreachable", "resume"):
+            return False, "terminator %s" % t["t"]
+    if len(aggs) != 1:
+        return False, "%d constructions" % len(aggs)
+
+    def origin(o, depth=0):
+        if depth > 12 or o.get("op") not in ("copy", "move"):
+            return None
+        pl = o["place"]
+        proj = [e for e in pl["proj"] if e["k"] != "deref"]
+        if proj:
+            if len(proj) == 1 and proj[0]["k"] == "field" and proj[0].get("of") == adt:
+                base = pl["local"]
+                if 1 <= base <= nargs:
+                    return proj[0]["i"]
+                d = defs.get(base, [])
+                # a reborrow / move of the parameter itself
+                if len(d) == 1 and d[0][0] == "rv" and d[0][1]["rv"] in ("use", "ref"):
+                    src = d[0][1].get("x", {}).get("place") or d[0][1].get("place")
+                    if src and not [e for e in src["proj"] if e["k"] != "deref"] and 1 <= src["local"] <= nargs:
+                        return proj[0]["i"]
+            return None
+        d = defs.get(pl["local"], [])
+        if len(d) != 1:
+            return None
+        kind, x = d[0]
+        if kind == "call":
+            return origin(x["args"][0], depth + 1) if len(x["args"]) == 1 else None
+        if x["rv"] == "use":
+            return origin(x["x"], depth + 1)
+        if x["rv"] == "ref":
+            return origin({"op": "copy", "place": x["place"]}, depth + 1)
+        if x["rv"] == "cast" and "Pointer" in x.get("kind", ""):
+            return origin(x["x"], depth + 1)
+        if x["rv"] == "aggregate" and x.get("adt") == "alloc::borrow::Cow" and len(x["ops"]) == 1:
+            return origin(x["ops"][0], depth + 1)
+        return None
+    for k, o in enumerate(aggs[0]["ops"]):
+        if origin(o) != k:
+            return False, "field %d is not rebuilt from the same field of an argument" % k
+    return True, "rebuilds every field from the same field of its argument"
+
+
 def closed(chk, prog, rule, role, crates, direct, authorised, floor, what):
     """every externally reachable function of `crates` from which a `direct` site is reachable is in `authorised` (list of predicates)"""
     g = Graph.of(prog)
